@@ -93,7 +93,12 @@ func VerifLemma_C20A_ExitMapping() {
 	verifAssert(got != 0, "an error never exits 0")
 	if hasConnect {
 		verifCover("connect")
-		if firstApp != bufctl.ExitCodeFileAnnotation && !hasImport {
+		// what governs the status: beneath a system error only the wrapped part is reported
+		effApp, effImport := firstApp, hasImport
+		if hasSys {
+			effApp, effImport = sysApp, sysImport
+		}
+		if effApp != bufctl.ExitCodeFileAnnotation && !effImport {
 			verifAssert(got != bufctl.ExitCodeFileAnnotation, "a registry failure is not reported as a source problem")
 		}
 		if connectEarly {
